@@ -12,10 +12,15 @@ func judge(r *Ref, o Op, got bool, errStr string, d Dump) (class, msg string) {
 	if errStr != "" {
 		return "api-error:" + o.K, fmt.Sprintf("%v returned the error %q", o, errStr)
 	}
+	late := o.K == "rel" && r.lost[o.L]
 	want, sit := r.apply(o)
 	if (o.K == "acq" || o.K == "rel") && got != want {
+		note := ""
+		if late && sit == "held-by-other" {
+			note = " — a late release by an expired holder"
+		}
 		return fmt.Sprintf("%s:%s:got-%v", o.K, sit, got),
-			fmt.Sprintf("%v returned %v in situation %q, the statement demands %v (store: %s)", o, got, sit, want, d)
+			fmt.Sprintf("%v returned %v in situation %q%s, the statement demands %v (store: %s)", o, got, sit, note, want, d)
 	}
 	return r.checkDump(d, o, sit)
 }
